@@ -476,6 +476,14 @@ func genElem(rt *rapid.T, t reflect.Type, r *c11Rendered, inMap bool) (C11Val, s
 		r.label("elem:" + lab)
 		return C11Val{S: &s}, txt
 	}
+	if t.Kind() == reflect.Slice {
+		// an element that is itself a list: its text, quoted as one element
+		in := genValue(rt, t)
+		txt, lab := quoteElem(rt, in.Text, inMap)
+		r.label("elem:" + lab)
+		r.label("nested-slice")
+		return in.Val, txt
+	}
 	v, raw := genScalar(rt, t, r, false)
 	txt, lab := quoteElem(rt, raw, inMap)
 	r.label("elem:" + lab)
